@@ -35,6 +35,28 @@
 
 static uint32_t umax(uint32_t a, uint32_t b) { return a > b ? a : b; }
 
+#if BITS == 64 || BITS == 32 || BITS == 24
+#define E_SPD_ 8192
+#define E_SDF_ 128
+#define E_EPS_ 640
+#define E_SUM_ 20
+#elif BITS == 16
+#define E_SPD_ 16384
+#define E_SDF_ 256
+#define E_EPS_ 1280
+#define E_SUM_ 20
+#elif BITS == 8
+#define E_SPD_ 32768
+#define E_SDF_ 1024
+#define E_EPS_ 640
+#define E_SUM_ 20
+#else
+#define E_SPD_ 65536
+#define E_SDF_ 1024
+#define E_EPS_ 1280
+#define E_SUM_ 20
+#endif
+
 void harness(void) {
     struct jls_signal_def_s def;
     memset(&def, 0, sizeof(def));
@@ -47,13 +69,17 @@ void harness(void) {
     SYM_U32(sdf);
     SYM_U32(eps);
     SYM_U32(sumdf);
-#ifndef MODE_CRASH
+#if !defined(MODE_CRASH) && !defined(DEFAULTS_FIXED)
     const uint32_t lim = 1u << VB;
     ASSUME(spd < lim && sdf < lim && eps < lim && sumdf < lim);
 #endif
 #ifdef MODE_DEFAULTS
     /* any subset of the four fields is zero; the others stay symbolic */
     SYM_U8(zmask);
+#ifdef DEFAULTS_FIXED
+    /* the non-zero fields carry the documented default themselves: the result must be the (normalised) default tuple */
+    spd = E_SPD_; sdf = E_SDF_; eps = E_EPS_; sumdf = E_SUM_;
+#endif
     if (zmask & 1) spd = 0;
     if (zmask & 2) sdf = 0;
     if (zmask & 4) eps = 0;
@@ -64,18 +90,7 @@ void harness(void) {
 #endif
     /* keep entries-per-block below EMAX so that the reduce-until-fits loop is bounded */
 #if defined(MODE_DEFAULTS)
-#if BITS == 64 || BITS == 32
-    const uint32_t E_SPD = 8192, E_SDF = 128;
-#elif BITS == 16
-    const uint32_t E_SPD = 16384, E_SDF = 256;
-#elif BITS == 8
-    const uint32_t E_SPD = 32768, E_SDF = 1024;
-#elif BITS == 4 || BITS == 1
-    const uint32_t E_SPD = 65536, E_SDF = 1024;
-#else
-    const uint32_t E_SPD = 0, E_SDF = 0;
-#endif
-    ASSUME((uint64_t) umax(spd ? spd : E_SPD, 10) <= (uint64_t) (EMAX - 1) * umax(sdf ? sdf : E_SDF, 10));
+    ASSUME((uint64_t) umax(spd ? spd : E_SPD_, 10) <= (uint64_t) (EMAX - 1) * umax(sdf ? sdf : E_SDF_, 10));
 #else
     ASSUME((uint64_t) umax(spd, 10) <= (uint64_t) (EMAX - 1) * umax(sdf, 10));
 #endif
@@ -126,17 +141,7 @@ void harness(void) {
         struct jls_signal_def_s d2;
         memset(&d2, 0, sizeof(d2));
         d2.signal_id = 1; d2.source_id = 1; d2.signal_type = JLS_SIGNAL_TYPE_FSR; d2.data_type = DT; d2.sample_rate = 1000;
-#if BITS == 64 || BITS == 32
-        const uint32_t D_SPD = 8192, D_SDF = 128, D_EPS = 640, D_SUM = 20;
-#elif BITS == 16
-        const uint32_t D_SPD = 16384, D_SDF = 256, D_EPS = 1280, D_SUM = 20;
-#elif BITS == 8
-        const uint32_t D_SPD = 32768, D_SDF = 1024, D_EPS = 640, D_SUM = 20;
-#elif BITS == 4 || BITS == 1
-        const uint32_t D_SPD = 65536, D_SDF = 1024, D_EPS = 1280, D_SUM = 20;
-#else
-        const uint32_t D_SPD = 0, D_SDF = 0, D_EPS = 0, D_SUM = 0;   /* 24-bit: no per-width defaults, minimums apply */
-#endif
+        const uint32_t D_SPD = E_SPD_, D_SDF = E_SDF_, D_EPS = E_EPS_, D_SUM = E_SUM_;   /* 24-bit: the 32-bit defaults */
         d2.samples_per_data = spd ? spd : D_SPD;
         d2.sample_decimate_factor = sdf ? sdf : D_SDF;
         d2.entries_per_summary = eps ? eps : D_EPS;
